@@ -3,7 +3,7 @@
 From Coq Require Import String List NArith ZArith Bool.
 From J5V.lib Require Import Text Outcome GoExpr.
 From J5V.model Require Import BclLexer BclParser BclFmt BclLsp BclFmtAligned.
-From J5V.proofs Require Import BclPosProofs BclLexerProofs BclParserProofs BclTextProofs BclFmtProofs BclFmtFullProofs BclLspProofs BclLspClampProofs BclDocBytesProofs BclFmtGenProofs BclFmtGenAllProofs BclFmtDiffsIdemProofs.
+From J5V.proofs Require Import BclPosProofs BclLexerProofs BclParserProofs BclTextProofs BclFmtProofs BclFmtFullProofs BclLspProofs BclLspClampProofs BclDocBytesProofs BclFmtGenProofs BclFmtGenAllProofs BclFmtDiffsIdemProofs BclTokEndProofs.
 Import ListNotations.
 Local Open Scope Z_scope.
 
@@ -172,6 +172,16 @@ Theorem C19_formatted_no_edits_aligned : forall x y, fmt_bytes x = Ok y ->
              (aligned ds true (-1) = true -> fmt_diffs y = Ok []).
 Proof. exact fmt_diffs_idem_partial. Qed.
 Print Assumptions C19_formatted_no_edits_aligned.
+
+(* first step towards extent_ok (proofs/BclTokEndProofs.v): every token AllTokens returns covers a segment of the
+   input (input = ps ++ seg ++ post, start = P ps, end = P (ps ++ seg)) and ends exactly (newlines of seg) lines
+   after it starts.  Still missing: seg of a token of formatted text has the newlines of token_source t, and the
+   sum over the tokens of a fragment. *)
+Theorem C19_token_end_exact : forall ff data ts, all_tokens ff data = LexOk ts ->
+  Forall (fun t => exists ps seg post, data = ps ++ seg ++ post /\ tstart t = P ps /\ tend t = P (ps ++ seg) /\
+                   fst (tend t) = fst (tstart t) + Z.of_nat (count_nl seg)) ts.
+Proof. exact all_tokens_end_exact. Qed.
+Print Assumptions C19_token_end_exact.
 
 (* the loop-level fact, for any diff list whose texts end with a newline (no parser involved) *)
 Theorem C19_aligned_diffs_no_edits : forall ms,
